@@ -175,7 +175,7 @@ func main() {
 		}
 	}
 	compared, uncompared := 0, 0
-	budget := 180 * time.Second
+	budget := 600 * time.Second // a safety net: the quick list completes in 1-3 minutes unless the machine is heavily loaded
 	if !run.Quick() {
 		budget = 13 * time.Minute
 	}
